@@ -130,8 +130,8 @@ Lemma deadf_of s a : sorted_state s -> is_destroyed s a = true -> (forall sfx, s
 Proof. intros Hs A B. apply dead_obs; auto. Qed.
 
 (** Contract.Destroy / Contract.Migrate leave the executing contract dead when tracking is active *)
-Theorem destroy_marks track h a s s' : good s -> is_addr a = true -> track <= h ->
-  exec true track h s (CDestroy a) = Ok s' -> good s' /\ dead_now s' a /\ contract_record s' a = [].
+Theorem destroy_marks strict track h a s s' : good s -> is_addr a = true -> track <= h ->
+  exec strict track h s (CDestroy a) = Ok s' -> good s' /\ dead_now s' a /\ contract_record s' a = [].
 Proof.
   intros G Aa Hh E. cbn [exec] in E. destruct (context_ok s a); [|discriminate].
   apply of_loop_ok in E. destruct E as [_ <-].
@@ -140,10 +140,10 @@ Proof.
   apply deadf_of; [apply good_sorted; exact R2|apply (R8 Hh)|exact R4].
 Qed.
 
-Theorem migrate_marks track h cur new code s s' : good s -> cop_wf (CMigrate cur new code) = true -> track <= h ->
-  exec true track h s (CMigrate cur new code) = Ok s' -> good s' /\ dead_now s' cur.
+Theorem migrate_marks strict track h cur new code s s' : good s -> cop_wf (CMigrate cur new code) = true -> track <= h ->
+  exec strict track h s (CMigrate cur new code) = Ok s' -> good s' /\ dead_now s' cur.
 Proof.
-  intros G W Hh E. pose proof (exec_good track h s _ s' G W E) as [G' _]. split; [exact G'|].
+  intros G W Hh E. pose proof (exec_good_any strict track h s _ s' G W E) as [G' _]. split; [exact G'|].
   cbn [exec cop_wf negb orb] in *. apply andb_prop in W. destruct W as [W Wc]. apply andb_prop in W. destruct W as [Wcur Wnew].
   destruct (undeployed s new); [|discriminate]. apply of_loop_ok in E. destruct E as [_ <-].
   assert (G1 : good (put_contract new code s)) by (apply good_put; [exact G|reflexivity|apply is_addr_wf; exact Wnew]).
@@ -154,17 +154,17 @@ Qed.
 
 (** Contract.Migrate moves the whole storage when the target owns none (which the no-orphan
     invariant guarantees for an undeployed target) *)
-Theorem contract_migrate_exact track h cur new code s s' :
+Theorem contract_migrate_exact strict track h cur new code s s' :
   good s -> cop_wf (CMigrate cur new code) = true -> cur <> new ->
   (contract_record s new = [] -> forall sfx, storage_at s new sfx = []) ->
-  exec true track h s (CMigrate cur new code) = Ok s' ->
+  exec strict track h s (CMigrate cur new code) = Ok s' ->
   (forall sfx, storage_at s' new sfx = storage_at s cur sfx) /\
   (forall sfx, storage_at s' cur sfx = []) /\
   contract_record s' new = code /\ contract_record s' cur = [] /\
   cache_iterate ST_STORAGE s' cur = ([], true).
 Proof.
   intros G W Hne O E. pose proof (good_sorted s G) as Hs.
-  pose proof (exec_good track h s _ s' G W E) as [G' _]. pose proof (good_sorted _ G') as Hs'.
+  pose proof (exec_good_any strict track h s _ s' G W E) as [G' _]. pose proof (good_sorted _ G') as Hs'.
   cbn [exec cop_wf negb orb] in *. apply andb_prop in W. destruct W as [W Wc]. apply andb_prop in W. destruct W as [Wcur Wnew].
   destruct (undeployed s new) eqn:Un; [|discriminate]. apply of_loop_ok in E. destruct E as [_ <-].
   rewrite undeployed_glk in Un by exact Hs. apply andb_prop in Un. destruct Un as [_ Un].
@@ -273,7 +273,7 @@ Lemma exec_all_good track h : forall ops s s', good s -> forallb cop_wf ops = tr
   exec_all true track h s ops = Ok s' -> good s'.
 Proof.
   intros ops s s' G W E.
-  apply (exec_all_inv (fun _ => True) (fun _ => true) (fun _ _ _ _ _ _ _ _ _ _ => I) track h ops s s' G W); auto.
+  apply (exec_all_inv true (fun _ => True) (fun _ => true) (fun _ _ _ _ _ _ _ _ _ _ => I) track h ops s s' G W); auto.
   clear. induction ops; simpl; auto.
 Qed.
 
@@ -295,15 +295,59 @@ Proof.
   cbn [exec_all] in *. destruct (exec true track h s1 o) as [s2|e2] eqn:E2; [|destruct e2; discriminate].
   assert (D2 : good s2 /\ deadf a (glk s2)).
   { destruct L as [->|(new & code & ->)].
-    - destruct (destroy_marks track h a s1 s2 G1 Aa Hh E2) as (G2 & (A & _ & B & _) & _).
+    - destruct (destroy_marks true track h a s1 s2 G1 Aa Hh E2) as (G2 & (A & _ & B & _) & _).
       split; [exact G2|apply deadf_of; [apply good_sorted; exact G2|exact A|exact B]].
-    - destruct (migrate_marks track h a new code s1 s2 G1 Wo Hh E2) as (G2 & (A & _ & B & _)).
+    - destruct (migrate_marks true track h a new code s1 s2 G1 Wo Hh E2) as (G2 & (A & _ & B & _)).
       split; [exact G2|apply deadf_of; [apply good_sorted; exact G2|exact A|exact B]]. }
   destruct D2 as [G2 D2].
   destruct (exec_all true track h s2 post) as [s3|e3] eqn:E3; [|destruct e3; discriminate].
   apply existsb_false_forallb in U.
-  destruct (exec_all_inv (deadf a) (keeps a) (exec_dead' a Aa) track h post s2 s3 G2 Wpost U D2 E3) as [G3 D3].
+  destruct (exec_all_inv true (deadf a) (keeps a) (exec_dead' a Aa) track h post s2 s3 G2 Wpost U D2 E3) as [G3 D3].
   cbn [fst]. split; [apply good_commit; exact G3|].
   apply dead_now_of; [apply good_reset, good_commit; exact G3|].
   eapply deadf_ext; [|exact D3]. intro x. unfold next_view. rewrite glk_reset. symmetry. apply bglk_commit, good_sorted, G3.
+Qed.
+
+(** * the code as it is ([strict] free): marker and missing record for ever *)
+Lemma markf_next s a : markf a (bglk s) <-> markf a (glk (next_view s)).
+Proof. split; apply markf_ext; intro x; [symmetry|]; apply glk_reset. Qed.
+
+Theorem marked_forever strict track a bs s :
+  good s -> is_addr a = true -> forallb block_wf bs = true -> existsb (block_unsets a) bs = false ->
+  is_destroyed (next_view s) a = true -> contract_record (next_view s) a = [] ->
+  let r := run_chain strict track s bs in
+  good (fst r) /\ is_destroyed (next_view (fst r)) a = true /\ contract_record (next_view (fst r)) a = [] /\
+  get_contract (next_view (fst r)) a = (None, true) /\
+  Forall2 (fun b os => Forall2 (fun t o => tx_claims a t = true -> o <> Committed) (b_txs b) os) bs (snd r).
+Proof.
+  intros G Aa W U D1 D2 r.
+  assert (D : markf a (bglk s)).
+  { apply markf_next. apply mark_obs; [apply good_sorted, good_reset, G|]. split; assumption. }
+  destruct (chain_mark strict a track bs s G W U D) as [G' D']. fold r in G', D'.
+  assert (M : markf a (glk (next_view (fst r)))) by (apply markf_next; exact D').
+  pose proof (good_sorted _ (good_reset _ G')) as Hs'.
+  pose proof (proj1 (mark_obs a _ Hs') M) as [M1 M2].
+  split; [exact G'|]. split; [exact M1|]. split; [exact M2|]. split.
+  - apply mark_get_contract; assumption.
+  - exact (chain_mark_claim strict a track bs s G W U D).
+Qed.
+
+(** inside one execution, as the code is: calls that need or create a record at a marked address
+    are refused; Contract.Create of it is a no-op; every other call keeps it marked *)
+Theorem marked_refuses strict track h a s o : good s -> is_addr a = true ->
+  is_destroyed s a = true -> contract_record s a = [] ->
+  cop_wf o = true -> cop_unsets a o = false ->
+  (cop_claims a o = true -> exec strict track h s o = Err Refused) /\
+  (forall code, exec strict track h s (CCreate a code) = Ok s) /\
+  (forall s', exec strict track h s o = Ok s' ->
+     good s' /\ is_destroyed s' a = true /\ contract_record s' a = [] /\ get_contract s' a = (None, true)).
+Proof.
+  intros G Aa D1 D2 W U. pose proof (good_sorted s G) as Hs.
+  assert (D : markf a (glk s)) by (apply mark_obs; auto). split; [|split].
+  - intro T. apply (exec_mark_refuses a strict track h s o G D T).
+  - intro code. cbn [exec]. rewrite (mark_get_contract a s Hs D). reflexivity.
+  - intros s' E. destruct (exec_good_any strict track h s o s' G W E) as [G' _].
+    pose proof (exec_mark a strict track h s o s' G W U D E) as M.
+    pose proof (proj1 (mark_obs a s' (good_sorted _ G')) M) as [M1 M2].
+    split; [exact G'|]. split; [exact M1|]. split; [exact M2|]. apply mark_get_contract; [apply good_sorted; exact G'|exact M].
 Qed.
